@@ -66,6 +66,11 @@ def _collect_pow(expr: Pow) -> tuple[Expr, Dimension]:
 
     base_expr, base_dim = collect_expression_and_dimension(expr.base)
 
+    # a bare quantity in the exponent stands for its value, as it does within sums and products,
+    # otherwise the quantity itself ends up in the exponent of the dimension
+    if isinstance(exp_expr, SymQuantity):
+        exp_expr = exp_expr.scale_factor
+
     expr_ = base_expr**exp_expr
     dim = base_dim**exp_expr
 
